@@ -32,25 +32,27 @@ IncRoot(loc) == IF Under(Carts, CartDir(loc) \o <<"cart.p8">>) THEN Carts ELSE C
 IncTarget(loc, arg) == NormFrom(CartDir(loc), arg \o <<"x.lua">>, 1)
 \* ---- require(): load-path configurations; a template = [abs, pre, ext, post] ----
 Tpl(abs, pre, ext, post) == [abs |-> abs, pre |-> pre, ext |-> ext, post |-> post]
-LoadPath(cfg) == CASE cfg = "default" -> << Tpl(FALSE, <<>>, "", <<>>), Tpl(FALSE, <<>>, ".lua", <<>>) >>
+LoadPath(cfg) == CASE cfg \in {"default", "qdir"} -> << Tpl(FALSE, <<>>, "", <<>>), Tpl(FALSE, <<>>, ".lua", <<>>) >>
                    [] cfg \in {"relative", "env"} -> << Tpl(FALSE, <<"lib">>, ".lua", <<>>), Tpl(FALSE, <<>>, "", <<"init.lua">>) >>
                    [] cfg = "absolute" -> << Tpl(TRUE, <<"libs">>, ".lua", <<>>) >>
 MainDir == <<"w", "foo">>
+\* "qdir": the requiring file lives in a directory whose own name contains the template placeholder
+MainDirOf(cfg) == IF cfg = "qdir" THEN <<"w", "fo?">> ELSE MainDir
 WithExt(arg, ext) == IF arg = <<>> THEN <<ext>> ELSE SubSeq(arg, 1, Len(arg) - 1) \o << arg[Len(arg)] \o ext >>
-ReqTarget(t, arg) == NormFrom(IF t.abs THEN <<>> ELSE MainDir, t.pre \o WithExt(arg, t.ext) \o t.post, 1)
-ReqRoots(cfg) == {MainDir} \cup {NormFrom(IF LoadPath(cfg)[i].abs THEN <<>> ELSE MainDir, LoadPath(cfg)[i].pre, 1) : i \in 1..Len(LoadPath(cfg))}
+ReqTarget(cfg, t, arg) == NormFrom(IF t.abs THEN <<>> ELSE MainDirOf(cfg), t.pre \o WithExt(arg, t.ext) \o t.post, 1)
+ReqRoots(cfg) == {MainDirOf(cfg)} \cup {NormFrom(IF LoadPath(cfg)[i].abs THEN <<>> ELSE MainDirOf(cfg), LoadPath(cfg)[i].pre, 1) : i \in 1..Len(LoadPath(cfg))}
 VARIABLE arg
 Init == arg = <<>>
 Next == Len(arg) < MaxLen /\ \E c \in Comps : arg' = Append(arg, c)
 Spec == Init /\ [][Next]_arg
 Locs == <<"plain", "carts", "sibling">>
-Cfgs == <<"default", "relative", "absolute", "env">>
+Cfgs == <<"default", "relative", "absolute", "env", "qdir">>
 Emit == IF Mode = "include"
         THEN PrintT(ToJson([arg |-> arg, cases |-> [i \in 1..3 |-> [loc |-> Locs[i], cartdir |-> CartDir(Locs[i]), root |-> IncRoot(Locs[i]),
                                   target |-> IncTarget(Locs[i], arg), inside |-> Under(IncRoot(Locs[i]), IncTarget(Locs[i], arg))]]]))
-        ELSE PrintT(ToJson([arg |-> arg, cases |-> [i \in 1..4 |-> [cfg |-> Cfgs[i], roots |-> SetToSeq(ReqRoots(Cfgs[i])),
+        ELSE PrintT(ToJson([arg |-> arg, cases |-> [i \in 1..5 |-> [cfg |-> Cfgs[i], maindir |-> MainDirOf(Cfgs[i]), roots |-> SetToSeq(ReqRoots(Cfgs[i])),
                                   cands |-> [j \in 1..Len(LoadPath(Cfgs[i])) |->
-                                      LET tg == ReqTarget(LoadPath(Cfgs[i])[j], arg) IN
+                                      LET tg == ReqTarget(Cfgs[i], LoadPath(Cfgs[i])[j], arg) IN
                                         [target |-> tg, inside |-> \E r \in ReqRoots(Cfgs[i]) : Under(r, tg)]]]]]))
 \* ---- properties of the spec itself (MC_PathJail) ----
 NormIdempotent == NormFrom(<<>>, NormFrom(MainDir, arg, 1), 1) = NormFrom(MainDir, arg, 1)
